@@ -18,16 +18,16 @@ type recEntry struct {
 }
 
 type recCase struct {
-	ID      int       `json:"id"`
-	Seed    int64     `json:"seed"`
-	Family  string    `json:"family"`
-	DB      []eCmd    `json:"db"`
-	Query   []int     `json:"q"`
-	QueryLC []int     `json:"q_lc"` // strings.ToLower(query): Unicode lower-casing is an oracle of the model
+	ID      int        `json:"id"`
+	Seed    int64      `json:"seed"`
+	Family  string     `json:"family"`
+	DB      []eCmd     `json:"db"`
+	Query   []int      `json:"q"`
+	QueryLC []int      `json:"q_lc"` // strings.ToLower(query): Unicode lower-casing is an oracle of the model
 	Entries []recEntry `json:"entries"`
-	Err     bool      `json:"err"`
-	Panic   string    `json:"panic,omitempty"`
-	Res     []eRes    `json:"res"`
+	Err     bool       `json:"err"`
+	Panic   string     `json:"panic,omitempty"`
+	Res     []eRes     `json:"res"`
 }
 
 func recRun(c *recCase, cmds []database.Command, dir string) {
